@@ -313,10 +313,15 @@ def sym_qvalues(ctx, cfg):
             Ti = z3.Sum([z3.If(zs[j] >= zs[i], 1, 0) for j in range(n) if labels[j]])
             conds.append(nT * Di <= nD * Ti)
         from fractions import Fraction
-        pi0 = core._z(K.pi0s[0]) if isinstance(K.pi0s[0], core.Sym) else z3.RealVal(Fraction(K.pi0s[0]))  # the float's exact value
+        symbolic_pi0 = isinstance(K.pi0s[0], core.Sym)
+        pi0 = core._z(K.pi0s[0]) if symbolic_pi0 else z3.RealVal(Fraction(K.pi0s[0]))  # the float's exact value
         for i in range(n):
             worst = z3.And([zs[i] <= zs[j] for j in range(n)])
-            props.append(("accepting_everything_is_estimated_at_pi0[worst=%d]" % i, z3.Implies(z3.And(z3.And(conds), worst), o[i] == pi0)))
+            # asked up to float rounding: the count ratio #T/#D is a concrete float in the shim as in numpy (1/3 is not
+            # a third), and so is the floor 1e-10 of estimate_pi0_by_slope (1e-10 * 3.0 / 3 != 1e-10)
+            lo, hi = z3.RealVal(Fraction(1) - Fraction(1, 10 ** 9)), z3.RealVal(Fraction(1) + Fraction(1, 10 ** 9))
+            same = z3.And(o[i] >= pi0 * lo, o[i] <= pi0 * hi)
+            props.append(("accepting_everything_is_estimated_at_pi0[worst=%d]" % i, z3.Implies(z3.And(z3.And(conds), worst), same)))
     return PathOutcome(props, inputs, None)
 
 
